@@ -1051,12 +1051,12 @@ def _check_codec(ctx, falcon, model):
              '١٢', '1١', '"\\ud83d\\ude00"', '"\\ud83d"', '"\\ud83d\\u0041"', '"\\ude00\\ud83d"', '"\\uD83D\\uDE00"']
     ptexts += [('fixed', t) for t in fixed]
     alpha = '[]{}"\\,:1-au0 '
-    maxlen = 4 if quick else 5
+    maxlen = 5
     for ln in range(0, maxlen + 1):
         for tup in itertools.product(alpha, repeat=ln):
             ptexts.append(('exh', ''.join(tup)))
     alpha2 = '[]",1 \\n'        # arrays, strings and escapes one notch longer on a smaller alphabet
-    for ln in range(maxlen + 1, maxlen + 2):
+    for ln in range(maxlen + 1, maxlen + (2 if quick else 3)):
         for tup in itertools.product(alpha2, repeat=ln):
             ptexts.append(('exh2', ''.join(tup)))
     mark('gen-ptexts')
